@@ -24,7 +24,10 @@ func leafBasics(tier string) []*Ty {
 
 func keyTypes() []*Ty {
 	return []*Ty{B("int"), B("string"), Named("NKey", B("int32")), Array(2, B("uint8")),
-		NStruct("SKey", F("A", B("int")), F("B", B("string"))), B("bool"), B("float64")}
+		NStruct("SKey", F("A", B("int")), F("B", B("string"))), B("bool"), B("float64"),
+		// every ordered basic kind once as a key (sorting of keys is per kind in the sort plugin)
+		B("int8"), B("int16"), B("int32"), B("int64"), B("uint"), B("uint8"), B("uint16"), B("uint32"), B("uint64"), B("uintptr"), B("float32"),
+		Named("NU64", B("uint64"))}
 }
 
 func tagOf(t *Ty) map[string]bool {
